@@ -11,6 +11,580 @@ import Rox.Lemmas.GrammarAsm
 namespace Rox.Lemmas
 open Rox Rox.Spec Rox.Spec.Grammar Rox.Spec.Canon4 Rox.Spec.Mirror
 
+/-! ### Unfolding the mutual definitions -/
+
+theorem masm_expectAllY_nil (p i : Nat) : expectAllY p i [] = [] := by
+  simp only [expectAllY]
+
+theorem masm_expectAllY_cons (p i : Nat) (k : YNode) (ks : List YNode) :
+    expectAllY p i (k :: ks) = expectY p i k ++ expectAllY p (i + countY k) ks := by
+  simp only [expectAllY]
+
+theorem masm_countAllY_nil : countAllY [] = 0 := by
+  simp only [countAllY]
+
+theorem masm_countAllY_cons (k : YNode) (ks : List YNode) :
+    countAllY (k :: ks) = countY k + countAllY ks := by
+  simp only [countAllY]
+
+theorem masm_expectY_elem (p i : Nat) (n : Bytes) (as : List (Bytes × Bytes)) (ks : List YNode) :
+    expectY p i (.elem n as ks) = (some p, .elem n as) :: expectAllY i (i + 1) ks := by
+  simp only [expectY]
+
+theorem masm_countY_elem (n : Bytes) (as : List (Bytes × Bytes)) (ks : List YNode) :
+    countY (.elem n as ks) = 1 + countAllY ks := by
+  simp only [countY]
+
+mutual
+  theorem masm_length_expectY : ∀ (y : YNode) (p i : Nat), (expectY p i y).length = countY y
+    | .elem n as ks, p, i => by
+      rw [masm_expectY_elem, masm_countY_elem, List.length_cons, masm_length_expectAllY ks i (i + 1)]
+      omega
+    | .comment c, p, i => by simp only [expectY, countY, List.length_cons, List.length_nil]
+    | .pi t v, p, i => by simp only [expectY, countY, List.length_cons, List.length_nil]
+    | .text t, p, i => by simp only [expectY, countY, List.length_cons, List.length_nil]
+  theorem masm_length_expectAllY : ∀ (l : List YNode) (p i : Nat),
+      (expectAllY p i l).length = countAllY l
+    | [], p, i => by rw [masm_expectAllY_nil, masm_countAllY_nil]; rfl
+    | k :: ks, p, i => by
+      rw [masm_expectAllY_cons, masm_countAllY_cons, List.length_append, masm_length_expectY k p i,
+        masm_length_expectAllY ks p (i + countY k)]
+end
+
+theorem masm_expectAllY_append (p : Nat) (l1 l2 : List YNode) : ∀ i : Nat,
+    expectAllY p i (l1 ++ l2) = expectAllY p i l1 ++ expectAllY p (i + countAllY l1) l2 := by
+  induction l1 with
+  | nil => intro i; rw [masm_countAllY_nil, masm_expectAllY_nil]; rfl
+  | cons k r ih =>
+    intro i
+    rw [List.cons_append, masm_expectAllY_cons, masm_expectAllY_cons, ih, masm_countAllY_cons,
+      List.append_assoc, Nat.add_assoc]
+
+theorem masm_treeKids_nil (pend : Option Bytes) : treeKids pend [] = flush pend := by
+  simp only [treeKids]
+theorem masm_treeKids_text (pend : Option Bytes) (raw : Bytes) (r : List GNode) :
+    treeKids pend (.text raw :: r) = treeKids (some (pend.getD [] ++ decodeText raw)) r := by
+  simp only [treeKids]
+theorem masm_treeKids_cdata (pend : Option Bytes) (b : Bytes) (r : List GNode) :
+    treeKids pend (.cdata b :: r) = treeKids (some (pend.getD [] ++ lineEnds b)) r := by
+  simp only [treeKids]
+theorem masm_treeKids_comment (pend : Option Bytes) (b : Bytes) (r : List GNode) :
+    treeKids pend (.comment b :: r) = flush pend ++ .comment b :: treeKids none r := by
+  simp only [treeKids]
+theorem masm_treeKids_pi (pend : Option Bytes) (t v : Bytes) (r : List GNode) :
+    treeKids pend (.pi t v :: r) = flush pend ++ .pi t v :: treeKids none r := by
+  simp only [treeKids]
+theorem masm_treeKids_elem (pend : Option Bytes) (q : Bytes) (attrs : List (Bytes × Bytes))
+    (kids r : List GNode) :
+    treeKids pend (.elem q attrs kids :: r) =
+      flush pend ++ .elem (qparts q).2 (attrsOf attrs) (treeKids none kids) :: treeKids none r := by
+  simp only [treeKids]
+theorem masm_treeOf_elem (q : Bytes) (attrs : List (Bytes × Bytes)) (kids : List GNode) :
+    treeOf (.elem q attrs kids) = [.elem (qparts q).2 (attrsOf attrs) (treeKids none kids)] := by
+  simp only [treeOf]
+
+theorem masm_normalAll_nil (T : Tables) : NormalAll T [] := by
+  simp only [NormalAll]
+theorem masm_normalAll_cons (T : Tables) (k : GNode) (ks : List GNode) :
+    NormalAll T (k :: ks) ↔ Normal T k ∧ NormalAll T ks := by
+  simp only [NormalAll]
+theorem masm_normal_elem (T : Tables) (q : Bytes) (attrs : List (Bytes × Bytes)) (kids : List GNode) :
+    Normal T (.elem q attrs kids) ↔ NormalAll T kids := by
+  simp only [Normal]
+theorem masm_normal_comment (T : Tables) (b : Bytes) : Normal T (.comment b) := by
+  simp only [Normal, piNormal]
+theorem masm_normal_cdata (T : Tables) (b : Bytes) : Normal T (.cdata b) := by
+  simp only [Normal, piNormal]
+theorem masm_normal_text (T : Tables) (b : Bytes) : Normal T (.text b) := by
+  simp only [Normal, piNormal]
+theorem masm_normal_pi (T : Tables) (t s v : Bytes) (h : (Item.pi t s v).PiN T) :
+    Normal T (.pi t v) := by
+  cases v with
+  | nil => simp only [Normal, piNormal]
+  | cons b r => simp only [Normal, piNormal]; exact h
+
+
+/-! ### The machine -/
+
+/-- the machine reads the items `kitems` of the children `kids` of the innermost open element `p`:
+the stack is left as it was, the nodes of `kids` are appended (the run being collected when the
+machine starts is the beginning of the first text node) -/
+def MachK (kitems : List Item) (kids : List GNode) : Prop :=
+  ∀ (a : AS) (p : Nat) (rest : List Nat), a.stk = p :: rest →
+    (runA a kitems).stk = a.stk ∧
+    (runA a kitems).flushed = a.out ++ expectAllY p a.out.length (treeKids a.pend kids)
+
+/-- the machine reads the items `grp` of one node that is not character data -/
+def NodeRun (grp : List Item) (y : YNode) : Prop :=
+  ∀ (a : AS) (p : Nat) (rest : List Nat), a.stk = p :: rest →
+    runA a grp = ⟨a.flushed ++ expectY p a.flushed.length y, none, a.stk⟩
+
+theorem masm_top (a : AS) (p : Nat) (rest : List Nat) (h : a.stk = p :: rest) : a.top = p := by
+  unfold AS.top
+  rw [h]
+  rfl
+
+theorem masm_flushed (a : AS) (p : Nat) (rest : List Nat) (h : a.stk = p :: rest) :
+    a.flushed = a.out ++ expectAllY p a.out.length (flush a.pend) := by
+  have ht := masm_top a p rest h
+  obtain ⟨out, pend, stk⟩ := a
+  cases pend with
+  | none =>
+    show out ++ [] = out ++ expectAllY p out.length []
+    rw [masm_expectAllY_nil]
+  | some t =>
+    show out ++ [(some (AS.top ⟨out, some t, stk⟩), YKind.text t)] =
+      out ++ expectAllY p out.length [YNode.text t]
+    rw [ht, masm_expectAllY_cons, masm_expectAllY_nil]
+    simp only [expectY, List.append_nil]
+
+theorem masm_mach_nil : MachK [] [] := by
+  intro a p rest h
+  refine ⟨rfl, ?_⟩
+  rw [masm_treeKids_nil]
+  exact masm_flushed a p rest h
+
+theorem masm_mach_sp (s : Bytes) (kitems : List Item) (kids : List GNode) (hM : MachK kitems kids) :
+    MachK (Item.sp s :: kitems) kids := by
+  intro a p rest h
+  exact hM a p rest h
+
+theorem masm_mach_char (it : Item) (k : GNode) (c : Bytes) (kitems : List Item) (kids : List GNode)
+    (hs : ∀ a : AS, stepA a it = ⟨a.out, some (a.pend.getD [] ++ c), a.stk⟩)
+    (ht : ∀ pend, treeKids pend (k :: kids) = treeKids (some (pend.getD [] ++ c)) kids)
+    (hM : MachK kitems kids) : MachK (it :: kitems) (k :: kids) := by
+  intro a p rest h
+  show (runA (stepA a it) kitems).stk = _ ∧ (runA (stepA a it) kitems).flushed = _
+  rw [hs, ht]
+  exact hM ⟨a.out, some (a.pend.getD [] ++ c), a.stk⟩ p rest h
+
+theorem masm_mach_node (grp : List Item) (y : YNode) (k : GNode) (kitems : List Item)
+    (kids : List GNode) (hg : NodeRun grp y)
+    (ht : ∀ pend, treeKids pend (k :: kids) = flush pend ++ y :: treeKids none kids)
+    (hM : MachK kitems kids) : MachK (grp ++ kitems) (k :: kids) := by
+  intro a p rest h
+  rw [runA_append, hg a p rest h, ht]
+  have hf := masm_flushed a p rest h
+  have hl : a.flushed.length = a.out.length + countAllY (flush a.pend) := by
+    rw [hf, List.length_append, masm_length_expectAllY]
+  obtain ⟨h1, h2⟩ := hM ⟨a.flushed ++ expectY p a.flushed.length y, none, a.stk⟩ p rest h
+  refine ⟨h1, ?_⟩
+  rw [h2]
+  show (a.flushed ++ expectY p a.flushed.length y) ++
+    expectAllY p (a.flushed ++ expectY p a.flushed.length y).length (treeKids none kids) = _
+  rw [masm_expectAllY_append, masm_expectAllY_cons, List.length_append, masm_length_expectY, hl, hf]
+  simp only [List.append_assoc]
+
+theorem masm_noderun_comment (b : Bytes) : NodeRun [Item.comment b] (.comment b) := by
+  intro a p rest h
+  show (⟨a.flushed ++ [(some a.top, YKind.comment b)], none, a.stk⟩ : AS) = _
+  rw [masm_top a p rest h]
+  simp only [expectY]
+
+theorem masm_noderun_pi (t s v : Bytes) : NodeRun [Item.pi t s v] (.pi t v) := by
+  intro a p rest h
+  show (⟨a.flushed ++ [(some a.top, YKind.pi t (if v.isEmpty then none else some v))], none,
+    a.stk⟩ : AS) = _
+  rw [masm_top a p rest h]
+  simp only [expectY]
+
+theorem masm_noderun_empty (q : Bytes) (attrs : List AttrC) (s1 : Bytes) :
+    NodeRun [Item.stag q attrs s1 true] (.elem (qparts q).2 (attrsOfC attrs) []) := by
+  intro a p rest h
+  show (⟨a.flushed ++ [(some a.top, YKind.elem (qparts q).2 (attrsOfC attrs))], none, a.stk⟩ : AS) = _
+  rw [masm_top a p rest h, masm_expectY_elem, masm_expectAllY_nil]
+
+theorem masm_noderun_open (q : Bytes) (attrs : List AttrC) (s1 q' s2 : Bytes) (kit1 : List Item)
+    (kids1 : List GNode) (hM : MachK kit1 kids1) :
+    NodeRun (Item.stag q attrs s1 false :: (kit1 ++ [Item.etag q' s2]))
+      (.elem (qparts q).2 (attrsOfC attrs) (treeKids none kids1)) := by
+  intro a p rest h
+  show runA (stepA a (Item.stag q attrs s1 false)) (kit1 ++ [Item.etag q' s2]) = _
+  rw [runA_append]
+  have hs : stepA a (Item.stag q attrs s1 false) =
+      ⟨a.flushed ++ [(some p, YKind.elem (qparts q).2 (attrsOfC attrs))], none,
+        a.flushed.length :: a.stk⟩ := by
+    show (⟨a.flushed ++ [(some a.top, YKind.elem (qparts q).2 (attrsOfC attrs))], none,
+      a.flushed.length :: a.stk⟩ : AS) = _
+    rw [masm_top a p rest h]
+  rw [hs]
+  obtain ⟨h1, h2⟩ := hM ⟨a.flushed ++ [(some p, YKind.elem (qparts q).2 (attrsOfC attrs))], none,
+    a.flushed.length :: a.stk⟩ a.flushed.length a.stk rfl
+  show (⟨(runA _ kit1).flushed, none, (runA _ kit1).stk.tail⟩ : AS) = _
+  rw [h1, h2, masm_expectY_elem]
+  simp only [List.length_append, List.length_cons, List.length_nil, List.tail_cons,
+    List.append_assoc, List.cons_append, List.nil_append, Nat.zero_add]
+
+theorem masm_leaf_mach (it : Item) (h : it.isLeafNT = true) (kitems : List Item)
+    (kids : List GNode) (hM : MachK kitems kids) : MachK (it :: kitems) (asmNode it :: kids) := by
+  cases it with
+  | comment b =>
+    exact masm_mach_node [Item.comment b] (.comment b) (.comment b) kitems kids
+      (masm_noderun_comment b) (fun pend => masm_treeKids_comment pend b kids) hM
+  | pi t s v =>
+    exact masm_mach_node [Item.pi t s v] (.pi t v) (.pi t v) kitems kids
+      (masm_noderun_pi t s v) (fun pend => masm_treeKids_pi pend t v kids) hM
+  | cdata b =>
+    exact masm_mach_char (Item.cdata b) (.cdata b) (lineEnds b) kitems kids (fun _ => rfl)
+      (fun pend => masm_treeKids_cdata pend b kids) hM
+  | sp s => exact Bool.noConfusion h
+  | text t => exact Bool.noConfusion h
+  | stag q a s e => exact Bool.noConfusion h
+  | etag q s => exact Bool.noConfusion h
+
+theorem masm_leaf_normal (T : Tables) (it : Item) (hp : it.PiN T) : Normal T (asmNode it) := by
+  cases it with
+  | comment b => exact masm_normal_comment T b
+  | pi t s v => exact masm_normal_pi T t s v hp
+  | cdata b => exact masm_normal_cdata T b
+  | sp s => exact masm_normal_text T []
+  | text t => exact masm_normal_text T t
+  | stag q a s e => exact masm_normal_text T []
+  | etag q s => exact masm_normal_text T []
+
+theorem masm_misc_pend (l : List Item) (h : ∀ it ∈ l, it.isMiscI = true) :
+    ∀ a : AS, a.pend = none → (runA a l).pend = none := by
+  induction l with
+  | nil => intro a ha; exact ha
+  | cons x r ih =>
+    intro a ha
+    have hx := h x (List.mem_cons_self ..)
+    have hr : ∀ it ∈ r, it.isMiscI = true := fun it hit => h it (List.mem_cons_of_mem _ hit)
+    show (runA (stepA a x) r).pend = none
+    cases x with
+    | sp s => exact ih hr a ha
+    | comment b => exact ih hr _ rfl
+    | pi t s v => exact ih hr _ rfl
+    | cdata b => exact Bool.noConfusion hx
+    | text t => exact Bool.noConfusion hx
+    | stag q a s e => exact Bool.noConfusion hx
+    | etag q s => exact Bool.noConfusion hx
+
+theorem masm_rmisc (T : Tables) (l : List Item) (h : ∀ it ∈ l, it.isMiscI = true)
+    (hl : ∀ it ∈ l, it.Lex T) (hp : ∀ it ∈ l, it.PiN T) :
+    ∃ ms, RMisc T ms (flat l) ∧ (∀ k ∈ ms, isMisc k = true ∧ GWf T k) ∧ NormalAll T ms ∧
+      MachK l ms := by
+  induction l with
+  | nil =>
+    exact ⟨[], RMisc.nil, fun k hk => absurd hk (List.not_mem_nil), masm_normalAll_nil T,
+      masm_mach_nil⟩
+  | cons x r ih =>
+    obtain ⟨ms, hm, hw, hN, hM⟩ := ih (fun it hit => h it (List.mem_cons_of_mem _ hit))
+      (fun it hit => hl it (List.mem_cons_of_mem _ hit))
+      (fun it hit => hp it (List.mem_cons_of_mem _ hit))
+    have hx := h x (List.mem_cons_self ..)
+    rcases asm_misc_item T x hx (hl x (List.mem_cons_self ..)) with
+      ⟨s, rfl, hs⟩ | ⟨hr, hg, hi⟩
+    · exact ⟨ms, RMisc.sp s ms _ hs hm, hw, hN, masm_mach_sp s r ms hM⟩
+    · refine ⟨asmNode x :: ms, RMisc.item _ _ ms _ hi hr hm, ?_,
+        (masm_normalAll_cons T _ _).2 ⟨masm_leaf_normal T x (hp x (List.mem_cons_self ..)), hN⟩, ?_⟩
+      · intro k hk
+        rcases List.mem_cons.1 hk with rfl | hk
+        · exact ⟨hi, hg⟩
+        · exact hw k hk
+      · cases x with
+        | sp s => exact Bool.noConfusion hi
+        | comment b => exact masm_leaf_mach _ rfl r ms hM
+        | pi t s v => exact masm_leaf_mach _ rfl r ms hM
+        | cdata b => exact Bool.noConfusion hx
+        | text t => exact Bool.noConfusion hx
+        | stag q a s e => exact Bool.noConfusion hx
+        | etag q s => exact Bool.noConfusion hx
+
+
+/-! ### The children of an element -/
+
+/-- `AsmA` of `Rox.Lemmas.GrammarAsm` with the normal form of the children and the machine -/
+def AsmM (T : Tables) (d : Nat) (stk : List QP) (its : List Item) : Prop :=
+  ∃ (kitems : List Item) (q' s2 : Bytes) (rest : List Item) (kids : List GNode),
+    its = kitems ++ Item.etag q' s2 :: rest ∧ RKids T kids (flat kitems) ∧ GWfAll T kids ∧
+    noAdjText kids = true ∧
+    (∀ k ks, kids = k :: ks → isText k = true → ∃ t r, kitems = Item.text t :: r) ∧
+    runStk stk kitems = some stk ∧ Sp0 T s2 ∧
+    ((d = 0 ∧ rest = []) ∨ (∃ d', d = d' + 1 ∧ Content d' rest)) ∧
+    NormalAll T kids ∧ MachK kitems kids
+
+theorem masm_prepend (T : Tables) (d : Nat) (stk : List QP) (it : Item) (tail : List Item)
+    (k : GNode) (hr : RNode T k it.bytes) (hg : GWf T k) (hstep : stepStk stk it = some stk)
+    (htxt : isText k = true → (∃ t, it = .text t) ∧ ∀ t' r, tail ≠ Item.text t' :: r)
+    (hN : Normal T k)
+    (hmach : ∀ kitems kids, MachK kitems kids → MachK (it :: kitems) (k :: kids))
+    (hA : AsmM T d stk tail) : AsmM T d stk (it :: tail) := by
+  obtain ⟨kitems, q', s2, rest, kids, rfl, hk, hw, hn, hh, hrun, hs, hd, hNk, hM⟩ := hA
+  refine ⟨it :: kitems, q', s2, rest, k :: kids, rfl, RKids.cons k kids _ _ hr hk,
+    (asm_gwfall_cons T k kids).2 ⟨hg, hw⟩, ?_, ?_, ?_, hs, hd,
+    (masm_normalAll_cons T k kids).2 ⟨hN, hNk⟩, hmach kitems kids hM⟩
+  · apply asm_noAdj_cons k kids hn
+    intro k' r hkr h1 h2
+    obtain ⟨t', r', hkit⟩ := hh k' r hkr h2
+    exact (htxt h1).2 t' (r' ++ Item.etag q' s2 :: rest) (by rw [hkit]; rfl)
+  · intro k0 ks hk0 h1
+    injection hk0 with hk0 _
+    subst hk0
+    obtain ⟨t, rfl⟩ := (htxt h1).1
+    exact ⟨t, kitems, rfl⟩
+  · rw [asm_runStk_cons_same stk it kitems hstep]
+    exact hrun
+
+theorem masm_main (T : Tables) : ∀ (n : Nat) (its : List Item) (d : Nat) (stk fin : List QP),
+    its.length < n → Content d its → stk.length = d + 1 → runStk stk its = some fin →
+    (∀ it ∈ its, it.Lex T) → (∀ it ∈ its, it.Sem T) → (∀ it ∈ its, it.PiN T) →
+    AsmM T d stk its ∨ stk.length ≤ fin.length := by
+  intro n
+  induction n with
+  | zero => intro its d stk fin h; exact absurd h (Nat.not_lt_zero _)
+  | succ n ih =>
+    intro its d stk fin hlen hc hstk hrun hlex hsem hpin
+    cases hc with
+    | eof =>
+      right
+      have : some stk = some fin := hrun
+      injection this with this
+      rw [this]; exact Nat.le_refl _
+    | leaf _ it tail hleaf hc' =>
+      have hstep := asm_step_leaf stk it hleaf
+      rw [asm_runStk_cons_same stk it tail hstep] at hrun
+      have hl : tail.length < n := Nat.lt_of_succ_lt_succ hlen
+      rcases ih tail d stk fin hl hc' hstk hrun
+        (fun x hx => hlex x (List.mem_cons_of_mem _ hx))
+        (fun x hx => hsem x (List.mem_cons_of_mem _ hx))
+        (fun x hx => hpin x (List.mem_cons_of_mem _ hx)) with hA | hB
+      · left
+        obtain ⟨h1, h2, h3⟩ := asm_leaf T it hleaf (hlex it (List.mem_cons_self ..))
+        exact masm_prepend T d stk it tail (asmNode it) h1 h2 hstep
+          (fun h => by rw [h3] at h; exact absurd h (by decide))
+          (masm_leaf_normal T it (hpin it (List.mem_cons_self ..)))
+          (masm_leaf_mach it hleaf) hA
+      · exact Or.inr hB
+    | text _ t tail hnt hc' =>
+      have hstep : stepStk stk (Item.text t) = some stk := rfl
+      rw [asm_runStk_cons_same stk _ tail hstep] at hrun
+      have hl : tail.length < n := Nat.lt_of_succ_lt_succ hlen
+      rcases ih tail d stk fin hl hc' hstk hrun
+        (fun x hx => hlex x (List.mem_cons_of_mem _ hx))
+        (fun x hx => hsem x (List.mem_cons_of_mem _ hx))
+        (fun x hx => hpin x (List.mem_cons_of_mem _ hx)) with hA | hB
+      · left
+        have hL : (Item.text t).Lex T := hlex _ (List.mem_cons_self ..)
+        have hS : RefText T t := hsem _ (List.mem_cons_self ..)
+        have hg : GWf T (.text t) := (asm_gwf_text T t).2 ⟨hL.1, hL.2.1, hS, hL.2.2.2⟩
+        exact masm_prepend T d stk (Item.text t) tail (.text t) (RNode.text t) hg hstep
+          (fun _ => ⟨⟨t, rfl⟩, hnt⟩) (masm_normal_text T t)
+          (fun kitems kids hM => masm_mach_char (Item.text t) (.text t) (decodeText t) kitems kids
+            (fun _ => rfl) (fun pend => masm_treeKids_text pend t kids) hM) hA
+      · exact Or.inr hB
+    | empty _ q attrs s1 tail hc' =>
+      have hstep : stepStk stk (Item.stag q attrs s1 true) = some stk := rfl
+      rw [asm_runStk_cons_same stk _ tail hstep] at hrun
+      have hl : tail.length < n := Nat.lt_of_succ_lt_succ hlen
+      rcases ih tail d stk fin hl hc' hstk hrun
+        (fun x hx => hlex x (List.mem_cons_of_mem _ hx))
+        (fun x hx => hsem x (List.mem_cons_of_mem _ hx))
+        (fun x hx => hpin x (List.mem_cons_of_mem _ hx)) with hA | hB
+      · left
+        have hL : (Item.stag q attrs s1 true).Lex T := hlex _ (List.mem_cons_self ..)
+        have hS : (Item.stag q attrs s1 true).Sem T := hsem _ (List.mem_cons_self ..)
+        have hg := asm_gwf_stag T q attrs s1 true [] hL hS rfl (asm_gwfall_nil T)
+        have hr : RNode T (.elem q (attrs.map fun a => (a.n, a.v)) [])
+            (Item.stag q attrs s1 true).bytes :=
+          RNode.empty q _ (attrsBytes attrs) s1 (asm_rattrs T attrs hL.2.2) hL.2.1
+        exact masm_prepend T d stk _ tail _ hr hg hstep
+          (fun h => Bool.noConfusion h)
+          ((masm_normal_elem T _ _ _).2 (masm_normalAll_nil T))
+          (fun kitems kids hM => masm_mach_node [Item.stag q attrs s1 true]
+            (.elem (qparts q).2 (attrsOfC attrs) []) _ kitems kids (masm_noderun_empty q attrs s1)
+            (fun pend => by rw [masm_treeKids_elem, masm_treeKids_nil]; rfl) hM) hA
+      · exact Or.inr hB
+    | «open» _ q attrs s1 tail hc' =>
+      have hrun1 : runStk (qparts q :: stk) tail = some fin := hrun
+      have hl : tail.length < n := Nat.lt_of_succ_lt_succ hlen
+      have hL : (Item.stag q attrs s1 false).Lex T := hlex _ (List.mem_cons_self ..)
+      have hS : (Item.stag q attrs s1 false).Sem T := hsem _ (List.mem_cons_self ..)
+      have hlexT : ∀ x ∈ tail, x.Lex T := fun x hx => hlex x (List.mem_cons_of_mem _ hx)
+      have hsemT : ∀ x ∈ tail, x.Sem T := fun x hx => hsem x (List.mem_cons_of_mem _ hx)
+      have hpinT : ∀ x ∈ tail, x.PiN T := fun x hx => hpin x (List.mem_cons_of_mem _ hx)
+      rcases ih tail (d + 1) (qparts q :: stk) fin hl hc' (by simp [hstk]) hrun1 hlexT hsemT hpinT
+        with hA | hB
+      · obtain ⟨kit1, q', s2, rest1, kids1, htail, hk1, hw1, hn1, _, hr1, hs2, hd1, hN1, hM1⟩ := hA
+        have hc1 : Content d rest1 := by
+          rcases hd1 with ⟨h0, _⟩ | ⟨d', hd', hc1⟩
+          · exact absurd h0 (Nat.succ_ne_zero _)
+          · have : d = d' := Nat.succ.inj hd'
+            rw [this]; exact hc1
+        subst htail
+        rw [asm_runStk_append, hr1] at hrun1
+        have hrun2 : (match stepStk (qparts q :: stk) (Item.etag q' s2) with
+              | some stk' => runStk stk' rest1
+              | none => none) = some fin := hrun1
+        have hstepE : stepStk (qparts q :: stk) (Item.etag q' s2) =
+            if qparts q = qparts q' then some stk else none := rfl
+        by_cases hqq : qparts q = qparts q'
+        · rw [hstepE, if_pos hqq] at hrun2
+          have hrun3 : runStk stk rest1 = some fin := hrun2
+          have hl1 : rest1.length < n := by
+            have : rest1.length < (kit1 ++ Item.etag q' s2 :: rest1).length := by
+              simp only [List.length_append, List.length_cons]; omega
+            omega
+          have hlexR : ∀ x ∈ rest1, x.Lex T := fun x hx =>
+            hlexT x (List.mem_append_right _ (List.mem_cons_of_mem _ hx))
+          have hsemR : ∀ x ∈ rest1, x.Sem T := fun x hx =>
+            hsemT x (List.mem_append_right _ (List.mem_cons_of_mem _ hx))
+          have hpinR : ∀ x ∈ rest1, x.PiN T := fun x hx =>
+            hpinT x (List.mem_append_right _ (List.mem_cons_of_mem _ hx))
+          rcases ih rest1 d stk fin hl1 hc1 hstk hrun3 hlexR hsemR hpinR with hA2 | hB2
+          · left
+            obtain ⟨kit2, q2, s22, rest2, kids2, rfl, hk2, hw2, hn2, hh2, hr2, hs22, hd2, hN2, hM2⟩ :=
+              hA2
+            have hg : GWf T (.elem q (attrs.map fun a => (a.n, a.v)) kids1) :=
+              asm_gwf_stag T q attrs s1 false kids1 hL hS hn1 hw1
+            have hrn : RNode T (.elem q (attrs.map fun a => (a.n, a.v)) kids1)
+                ((Item.stag q attrs s1 false).bytes ++
+                  (flat kit1 ++ (Item.etag q' s2).bytes)) := by
+              have := RNode.elem q q' _ kids1 (attrsBytes attrs) s1 (flat kit1) s2
+                (asm_rattrs T attrs hL.2.2) hL.2.1 hk1 hs2 hqq.symm
+              rw [asm_elem_bytes] at this
+              exact this
+            have hMach : MachK (Item.stag q attrs s1 false :: (kit1 ++ Item.etag q' s2 :: kit2))
+                (.elem q (attrs.map fun a => (a.n, a.v)) kids1 :: kids2) := by
+              have := masm_mach_node (Item.stag q attrs s1 false :: (kit1 ++ [Item.etag q' s2]))
+                (.elem (qparts q).2 (attrsOfC attrs) (treeKids none kids1))
+                (.elem q (attrs.map fun a => (a.n, a.v)) kids1) kit2 kids2
+                (masm_noderun_open q attrs s1 q' s2 kit1 kids1 hM1)
+                (fun pend => masm_treeKids_elem pend q _ kids1 kids2) hM2
+              have e : (Item.stag q attrs s1 false :: (kit1 ++ [Item.etag q' s2])) ++ kit2 =
+                  Item.stag q attrs s1 false :: (kit1 ++ Item.etag q' s2 :: kit2) := by
+                simp only [List.cons_append, List.append_assoc, List.nil_append]
+              rw [e] at this
+              exact this
+            refine ⟨Item.stag q attrs s1 false :: (kit1 ++ Item.etag q' s2 :: kit2), q2, s22,
+              rest2, .elem q (attrs.map fun a => (a.n, a.v)) kids1 :: kids2, ?_, ?_,
+              (asm_gwfall_cons T _ _).2 ⟨hg, hw2⟩, ?_, ?_, ?_, hs22, hd2,
+              (masm_normalAll_cons T _ _).2 ⟨(masm_normal_elem T _ _ _).2 hN1, hN2⟩, hMach⟩
+            · simp only [List.cons_append, List.append_assoc]
+            · have hfl : flat (Item.stag q attrs s1 false :: (kit1 ++ Item.etag q' s2 :: kit2)) =
+                  ((Item.stag q attrs s1 false).bytes ++
+                    (flat kit1 ++ (Item.etag q' s2).bytes)) ++ flat kit2 := by
+                show (Item.stag q attrs s1 false).bytes ++ flat (kit1 ++ Item.etag q' s2 :: kit2) = _
+                rw [asm_flat_append]
+                show _ ++ (flat kit1 ++ ((Item.etag q' s2).bytes ++ flat kit2)) = _
+                simp only [List.append_assoc]
+              rw [hfl]
+              exact RKids.cons _ _ _ _ hrn hk2
+            · apply asm_noAdj_cons _ kids2 hn2
+              intro k' r _ h1 _
+              exact Bool.noConfusion h1
+            · intro k0 ks hk0 h1
+              injection hk0 with hk0 _
+              subst hk0
+              exact Bool.noConfusion h1
+            · show runStk (qparts q :: stk) (kit1 ++ Item.etag q' s2 :: kit2) = some stk
+              rw [asm_runStk_append, hr1]
+              show (match stepStk (qparts q :: stk) (Item.etag q' s2) with
+                    | some stk' => runStk stk' kit2
+                    | none => none) = some stk
+              rw [hstepE, if_pos hqq]
+              exact hr2
+          · exact Or.inr hB2
+        · rw [hstepE, if_neg hqq] at hrun2
+          exact absurd hrun2 (by simp)
+      · right
+        have : (qparts q :: stk).length = stk.length + 1 := rfl
+        omega
+    | close d' q s2 tail hc' =>
+      left
+      have hL : (Item.etag q s2).Lex T := hlex _ (List.mem_cons_self ..)
+      exact ⟨[], q, s2, tail, [], rfl, RKids.nil, asm_gwfall_nil T, rfl,
+        (fun k ks h => by cases h), rfl, hL.2, Or.inr ⟨d', rfl, hc'⟩, masm_normalAll_nil T,
+        masm_mach_nil⟩
+    | last q s2 =>
+      left
+      have hL : (Item.etag q s2).Lex T := hlex _ (List.mem_cons_self ..)
+      exact ⟨[], q, s2, [], [], rfl, RKids.nil, asm_gwfall_nil T, rfl,
+        (fun k ks h => by cases h), rfl, hL.2, Or.inl ⟨rfl, rfl⟩, masm_normalAll_nil T,
+        masm_mach_nil⟩
+
+/-! ### The document -/
+
+theorem masm_root (T : Tables) (pre root post : List Item)
+    (hpre : ∀ it ∈ pre, it.isMiscI = true) (hpost : ∀ it ∈ post, it.isMiscI = true)
+    (hroot : RootShape root)
+    (hlex : ∀ it ∈ root, it.Lex T) (hsem : ∀ it ∈ root, it.Sem T) (hpin : ∀ it ∈ root, it.PiN T)
+    (hrun : runStk [] (pre ++ root ++ post) = some [])
+    (hstag : ∃ it ∈ pre ++ root ++ post, it.isStag = true) :
+    ∃ r y, isElem r = true ∧ GWf T r ∧ RNode T r (flat root) ∧ Normal T r ∧ treeOf r = [y] ∧
+      NodeRun root y := by
+  rcases hroot with rfl | ⟨q, attrs, s1, rfl⟩ | ⟨q, attrs, s1, content, rfl, hcont⟩
+  · obtain ⟨it, hit, hs⟩ := hstag
+    rw [List.append_nil] at hit
+    have hm : it.isMiscI = true := by
+      rcases List.mem_append.1 hit with h | h
+      · exact hpre it h
+      · exact hpost it h
+    rw [asm_misc_not_stag it hm] at hs
+    exact Bool.noConfusion hs
+  · have hL : (Item.stag q attrs s1 true).Lex T := hlex _ (List.mem_cons_self ..)
+    have hS : (Item.stag q attrs s1 true).Sem T := hsem _ (List.mem_cons_self ..)
+    refine ⟨.elem q (attrs.map fun a => (a.n, a.v)) [],
+      .elem (qparts q).2 (attrsOfC attrs) [], rfl,
+      asm_gwf_stag T q attrs s1 true [] hL hS rfl (asm_gwfall_nil T), ?_,
+      (masm_normal_elem T _ _ _).2 (masm_normalAll_nil T), ?_, masm_noderun_empty q attrs s1⟩
+    · show RNode T _ ((Item.stag q attrs s1 true).bytes ++ [])
+      rw [List.append_nil]
+      exact RNode.empty q _ (attrsBytes attrs) s1 (asm_rattrs T attrs hL.2.2) hL.2.1
+    · rw [masm_treeOf_elem, masm_treeKids_nil]; rfl
+  · have hL : (Item.stag q attrs s1 false).Lex T := hlex _ (List.mem_cons_self ..)
+    have hS : (Item.stag q attrs s1 false).Sem T := hsem _ (List.mem_cons_self ..)
+    have hlexC : ∀ x ∈ content, x.Lex T := fun x hx => hlex x (List.mem_cons_of_mem _ hx)
+    have hsemC : ∀ x ∈ content, x.Sem T := fun x hx => hsem x (List.mem_cons_of_mem _ hx)
+    have hpinC : ∀ x ∈ content, x.PiN T := fun x hx => hpin x (List.mem_cons_of_mem _ hx)
+    rw [List.append_assoc, asm_runStk_append, asm_run_misc [] pre hpre] at hrun
+    have hrun1 : runStk [qparts q] (content ++ post) = some [] := hrun
+    rw [asm_runStk_append] at hrun1
+    cases hfin : runStk [qparts q] content with
+    | none => rw [hfin] at hrun1; exact absurd hrun1 (by simp)
+    | some fin =>
+      rw [hfin] at hrun1
+      have hrun2 : runStk fin post = some [] := hrun1
+      rw [asm_run_misc fin post hpost] at hrun2
+      injection hrun2 with hrun2
+      subst hrun2
+      rcases masm_main T (content.length + 1) content 0 [qparts q] [] (Nat.lt_succ_self _) hcont rfl
+        hfin hlexC hsemC hpinC with hA | hB
+      · obtain ⟨kitems, q', s2, rest, kids, rfl, hk, hw, hn, _, hr, hs2, hd, hN, hM⟩ := hA
+        have hrest : rest = [] := by
+          rcases hd with ⟨_, h⟩ | ⟨d', hd', _⟩
+          · exact h
+          · exact absurd hd' (Nat.succ_ne_zero _).symm
+        subst hrest
+        rw [asm_runStk_append, hr] at hfin
+        have hfin2 : (match stepStk [qparts q] (Item.etag q' s2) with
+              | some stk' => runStk stk' []
+              | none => none) = some [] := hfin
+        have hstepE : stepStk [qparts q] (Item.etag q' s2) =
+            if qparts q = qparts q' then some [] else none := rfl
+        by_cases hqq : qparts q = qparts q'
+        · refine ⟨.elem q (attrs.map fun a => (a.n, a.v)) kids,
+            .elem (qparts q).2 (attrsOfC attrs) (treeKids none kids), rfl,
+            asm_gwf_stag T q attrs s1 false kids hL hS hn hw, ?_,
+            (masm_normal_elem T _ _ _).2 hN, ?_,
+            masm_noderun_open q attrs s1 q' s2 kitems kids hM⟩
+          · have := RNode.elem q q' _ kids (attrsBytes attrs) s1 (flat kitems) s2
+              (asm_rattrs T attrs hL.2.2) hL.2.1 hk hs2 hqq.symm
+            rw [asm_elem_bytes] at this
+            have hfl : flat (Item.stag q attrs s1 false :: (kitems ++ [Item.etag q' s2])) =
+                (Item.stag q attrs s1 false).bytes ++
+                  (flat kitems ++ (Item.etag q' s2).bytes) := by
+              show (Item.stag q attrs s1 false).bytes ++ flat (kitems ++ [Item.etag q' s2]) = _
+              rw [asm_flat_append]
+              show _ ++ (flat kitems ++ ((Item.etag q' s2).bytes ++ [])) = _
+              rw [List.append_nil]
+            rw [hfl]
+            exact this
+          · rw [masm_treeOf_elem]; rfl
+        · rw [hstepE, if_neg hqq] at hfin2
+          exact absurd hfin2 (by simp)
+      · exact absurd hB (Nat.not_succ_le_zero _)
+
 /-- **Stage C'** -/
 theorem assembleM (T : Tables) (bom decl : Bytes) (pre root post : List Item)
     (hbom : bom = [] ∨ bom = Lit.bom) (hdecl : decl = [] ∨ XmlDecl T decl)
@@ -24,6 +598,45 @@ theorem assembleM (T : Tables) (bom decl : Bytes) (pre root post : List Item)
       RDoc T x (bom ++ decl ++ flat pre ++ flat root ++ flat post) ∧
       (runA initA (pre ++ root ++ post)).pend = none ∧
       (runA initA (pre ++ root ++ post)).out = (none, YKind.root) :: expectAllY 0 1 (docTree x) := by
-  sorry
+  obtain ⟨mpre, hmpre, hwpre, hNpre, hMpre⟩ := masm_rmisc T pre hpre
+    (fun it h => hlex it (List.mem_append_left _ (List.mem_append_left _ h)))
+    (fun it h => hpin it (List.mem_append_left _ (List.mem_append_left _ h)))
+  obtain ⟨mpost, hmpost, hwpost, hNpost, hMpost⟩ := masm_rmisc T post hpost
+    (fun it h => hlex it (List.mem_append_right _ h))
+    (fun it h => hpin it (List.mem_append_right _ h))
+  obtain ⟨r, y, he, hg, hr, hNr, hty, hRun⟩ := masm_root T pre root post hpre hpost hroot
+    (fun it h => hlex it (List.mem_append_left _ (List.mem_append_right _ h)))
+    (fun it h => hsem it (List.mem_append_left _ (List.mem_append_right _ h)))
+    (fun it h => hpin it (List.mem_append_left _ (List.mem_append_right _ h))) hrun hstag
+  refine ⟨⟨mpre, r, mpost⟩, ⟨he, hg, hwpre, hwpost⟩, ⟨hNpre, hNr, hNpost⟩,
+    RDoc.mk mpre r mpost bom decl _ _ _ hbom hdecl hmpre hr hmpost, ?_⟩
+  rw [runA_append, runA_append]
+  obtain ⟨s1, f1⟩ := hMpre initA 0 [] rfl
+  have s1' : (runA initA pre).stk = 0 :: [] := s1
+  rw [hRun (runA initA pre) 0 [] s1']
+  obtain ⟨s3, f3⟩ := hMpost ⟨(runA initA pre).flushed ++
+    expectY 0 (runA initA pre).flushed.length y, none, (runA initA pre).stk⟩ 0 [] s1'
+  have p3 := masm_misc_pend post hpost ⟨(runA initA pre).flushed ++
+    expectY 0 (runA initA pre).flushed.length y, none, (runA initA pre).stk⟩ rfl
+  refine ⟨p3, ?_⟩
+  have ho : ∀ a : AS, a.pend = none → a.out = a.flushed := by
+    intro a ha
+    unfold AS.flushed
+    rw [ha, List.append_nil]
+  rw [ho _ p3, f3, f1]
+  show ([(none, YKind.root)] ++ expectAllY 0 1 (treeKids none mpre) ++
+      expectY 0 ([(none, YKind.root)] ++ expectAllY 0 1 (treeKids none mpre)).length y) ++
+    expectAllY 0 (([(none, YKind.root)] ++ expectAllY 0 1 (treeKids none mpre) ++
+      expectY 0 ([(none, YKind.root)] ++ expectAllY 0 1 (treeKids none mpre)).length y)).length
+      (treeKids none mpost) =
+    (none, YKind.root) :: expectAllY 0 1 (treeKids none mpre ++ treeOf r ++ treeKids none mpost)
+  have hd : treeKids none mpre ++ treeOf r ++ treeKids none mpost =
+      treeKids none mpre ++ (y :: treeKids none mpost) := by
+    rw [hty, List.append_assoc]
+    rfl
+  rw [hd, masm_expectAllY_append, masm_expectAllY_cons]
+  simp only [List.length_append, List.length_cons, masm_length_expectAllY,
+    masm_length_expectY, List.append_assoc, List.cons_append, List.nil_append,
+    Nat.add_comm, Nat.add_left_comm]
 
 end Rox.Lemmas
